@@ -82,6 +82,8 @@ func (c18) Plan(tier string, seed int64) []core.Scenario {
 	}
 	// a subscription with tens of thousands of unread values when the closer is invoked
 	out = append(out, core.Sc("backlog").WithN("n", 20000).WithN("how", 0), core.Sc("backlog").WithN("n", 17000).WithN("how", 1))
+	// the client is serving reverse calls whose handlers do not return on cancellation
+	out = append(out, core.Sc("busy-reverse-handler").WithN("handlers", 1), core.Sc("busy-reverse-handler").WithN("handlers", 3))
 	if tier == "thorough" {
 		// repeat the whole enumeration with different noise
 		base := append([]core.Scenario(nil), out...)
@@ -104,6 +106,8 @@ func (p c18) Run(sc core.Scenario) core.Result {
 		p.stateless(sc, r)
 	} else if sc.Kind == "stalled-write" {
 		p.stalledWrite(sc, r)
+	} else if sc.Kind == "busy-reverse-handler" {
+		p.busyReverseHandler(sc, r)
 	} else if sc.Kind == "backlog" {
 		p.backlog(sc, r)
 	} else if sc.Kind == "foreign-server" {
@@ -563,4 +567,57 @@ func (c18) foreignServer(sc core.Scenario, r *core.R) {
 	r.Key("foreign-server "+answer, true)
 	r.Obs("calls", 4)
 	r.Sample(map[string]interface{}{"scenario": where})
+}
+
+// busyReverseHandler: the client is in the middle of serving reverse calls; its handlers ignore the
+// cancellation of their context and stay busy. The closer returns all the same, a call issued afterwards
+// fails at once, and the forward calls that triggered the reverse calls are failed.
+func (c18) busyReverseHandler(sc core.Scenario, r *core.R) {
+	env := NewEnv(EnvOpt{Rev: true})
+	defer env.Shutdown()
+	defer noisePolicy(sc).Install()()
+	c, err := env.NewClient(ClientOpt{RevIdent: "A"})
+	if err != nil {
+		r.Inconclusive("client: %v", err)
+		return
+	}
+	bg := context.Background()
+	var outs []*Outcome
+	var toks []string
+	for i := 0; i < sc.I("handlers"); i++ {
+		t := Tok("v")
+		c.RevSvc.Hold(t + ".r0") // RHold waits for its gate only, not for its context
+		outs = append(outs, Go(t, func() (string, error) { return c.Rev(bg, t, 1, 4) }))
+		if !c.RevSvc.WaitEntered(t+".r0", core.Grace) {
+			r.Inconclusive("reverse handler never entered")
+			return
+		}
+		toks = append(toks, t)
+	}
+	done := make(chan struct{})
+	go func() { c.Close(); close(done) }()
+	if !core.WaitCh(done, core.Grace) {
+		r.Violate("closer-hang:busy-reverse-handler", "the closer did not return within %v while %d client-side handler(s) of reverse calls were still busy (they ignore their cancelled context)", core.Grace, len(toks))
+	}
+	for _, o := range outs {
+		if !o.Wait(core.Grace) {
+			r.Violate("call-blocked-after-close", "forward call %s (its handler is waiting for a reverse call) did not return after the client was closed", o.Tok)
+		} else if o.Err == nil {
+			r.Violate("call-blocked-after-close", "forward call %s returned %q without error although the client was closed while its reverse call was being served", o.Tok, core.Trunc(o.Val, 40))
+		}
+	}
+	lt := Tok("l")
+	lo := Go(lt, func() (string, error) { return c.Echo(bg, lt, "") })
+	if !lo.Wait(core.Grace) {
+		r.Violate("late-call-blocked", "a call issued after the closer was invoked did not return")
+	} else if lo.Err == nil {
+		r.Violate("late-call-succeeded", "a call issued after close succeeded")
+	}
+	for _, t := range toks {
+		c.RevSvc.Release(t + ".r0")
+	}
+	r.Key(fmt.Sprintf("busy-reverse-handler n=%d", len(toks)), true)
+	r.Obs("closes", 1)
+	r.Sig(core.Log.Signature())
+	r.Sample(map[string]interface{}{"scenario": "close while client-side handlers of reverse calls are busy and ignore cancellation", "handlers": len(toks)})
 }
